@@ -4279,6 +4279,8 @@ def check_onepoint(goal, ctx):
     return information needed to reconstruct the proof.
     
     """
+    if not goal.is_equals():
+        raise VeriTException("onepoint", "goal should be an equality")
     lhs, rhs = goal.args
 
     # Deconstruct quantifiers at lhs and rhs
@@ -4336,10 +4338,8 @@ def check_onepoint(goal, ctx):
                         break
                 if concl.is_not() and concl.arg.is_equals() and concl.arg.lhs == v:
                     found = True
-                    break
                 if concl.is_not() and concl.arg.is_equals() and concl.arg.rhs == v:
                     found = True
-                    break
                 if not found:
                     raise VeriTException("onepoint", "forall - equation not found")
             return "FORALL-DISJ", l_bd, one_val_var, remain_var
@@ -4377,6 +4377,7 @@ def check_onepoint(goal, ctx):
         # body must be in conjunction form, with each equation as a conjunct
         conjs = l_bd.strip_conj()
         for v, t in one_val_var.items():
+            found = False
             for i, conj in enumerate(conjs):
                 if conj.is_equals() and conj.lhs == v:
                     found = True
